@@ -2,8 +2,10 @@
   Line-protocol driver of C02 (core-only).
 
     run <kind>/<topic hex>/<mws> <script>+
-        kind   pub | dis | disdeco | nil     (AddHandler+publisher | AddNoPublisherHandler | the same with a
-                                              recording publisher decorator | AddHandler with a nil publisher)
+        kind   pub | pubdeco | dis | disdeco | nil   (AddHandler+publisher | the same with a pass-through publisher
+                                              decorator | AddNoPublisherHandler | the same with a recording publisher
+                                              decorator | AddHandler with a nil publisher); optional 4th field /<E|N><sxo*>:
+                                              a second handler on the router, see parseCfg
         mws    -  or a word over {p,o,r,P,O,R}: middlewares in registration order (first = outermost),
                p = passthrough, o = appends one output (id 100+position) to whatever the inner handler returned,
                r = copies the outputs into a fresh slice (empty but NON-NIL when there are none);
@@ -28,6 +30,8 @@
         a | n                     handler settled the message itself
         P<topic hex>/<ids>/<st>   Publish entered with these outputs (ids joined by `.`), settlement state of the
                                   consumed message sampled inside Publish: - a n
+        W<topic hex>/<ids>        these outputs were handed to the publisher of ANOTHER handler (which accepts them): they
+                                  do not count as accepted by the handler's publisher
         R<ret>/<st>               Publish about to end: ok err nopub panic, state sampled again
         F<st>                     settlement state after handleMessage finished (B = both channels closed)
         D                         Router.Close() returned nil afterwards (runningHandlersWg.Done() was called)
@@ -57,19 +61,33 @@ def parseMws (s : String) : Option (List (Mw Nat)) :=
     | 'o' | 'O' => some (Mw.addOut (100 + i))
     | _ => none)
 
+def nbOk (s : String) : Bool :=
+  match s.toList with
+  | c :: rest => (c == 'E' || c == 'N') && rest.all (fun x => x == 's' || x == 'x' || x == 'o')
+  | [] => false
+
 def parseCfg (s : String) : Option DCfg :=
-  match s.splitOn "/" with
-  | [k, t, m] => do
+  -- optional 4th field: a second handler on the same router (E = registered with the empty name, N = named), with its
+  -- own handler-level middlewares (s swallows errors, x rejects, o adds an output) and, for pub/pubdeco, its own publisher
+  -- instance of the same Go type.  Nothing of it belongs to the chain or the publisher of handler "h": the model ignores it.
+  let fields := s.splitOn "/"
+  let core : Option (String × String × String) := match fields with
+    | [k, t, m] => some (k, t, m)
+    | [k, t, m, nb] => if nbOk nb then some (k, t, m) else none
+    | _ => none
+  match core with
+  | some (k, t, m) => do
     let tb ← hexDec t
     let topic := String.ofList (tb.map (fun b => Char.ofNat b.toNat))   -- topics used by the harness are ASCII
     let mws ← parseMws m
     match k with
     | "pub"     => some ⟨⟨.withPub, topic⟩, true, mws, k⟩
+    | "pubdeco" => some ⟨⟨.withPub, topic⟩, true, mws, k⟩   -- the same with a pass-through publisher decorator installed
     | "dis"     => if tb.isEmpty then some ⟨⟨.disabled, ""⟩, false, mws, k⟩ else none
     | "disdeco" => if tb.isEmpty then some ⟨⟨.disabled, ""⟩, true, mws, k⟩ else none
     | "nil"     => some ⟨⟨.nilPub, topic⟩, true, mws, k⟩
     | _ => none
-  | _ => none
+  | none => none
 
 /-- scripted publisher: a fixed verdict, or "refuse the call iff it contains output `k`" -/
 inductive PubSpec | fixed (p : PubOutcome) | rejectIf (k : Nat)
@@ -213,6 +231,7 @@ structure Obs where
   pubs    : List PubRec := []      -- most recent first
   finals  : List String := []
   doneTok : Bool := false
+  foreign : Nat := 0               -- W tokens: Publish calls that reached ANOTHER handler's publisher
 
 def parseIds (s : String) : Option (List Nat) :=
   if s = "-" then some [] else (s.splitOn ".").mapM String.toNat?
@@ -239,6 +258,12 @@ def parseObs (w : String) : Option Obs := do
         let ids ← parseIds ids
         if !stOk st then none
         o := { o with pubs := ⟨ids, st, "?", "?"⟩ :: o.pubs }
+      | _ => none
+    else if t.startsWith "W" then
+      match (t.drop 1).toString.splitOn "/" with
+      | [_, ids] =>
+        let _ ← parseIds ids
+        o := { o with foreign := o.foreign + 1 }
       | _ => none
     else if t.startsWith "R" then
       match (t.drop 1).toString.splitOn "/" with
@@ -298,7 +323,7 @@ def monitor1 (d : DCfg) (sc : Script) (w : String) : String :=
       if selfS != "a" && (p.stIn = "a" || p.stOut = "a") then return "violated:ack_before_publish_returned"
       if selfS != "-" && (p.stIn != selfS || p.stOut != selfS) then return "violated:self_settlement_overridden"
     -- messages returned together with an error are not published (nor anything after a panic)
-    if chainEnds != "ok" && o.pubs.length > 0 then return "violated:published_on_error"
+    if chainEnds != "ok" && (o.pubs.length > 0 || o.foreign > 0) then return "violated:published_on_error"
     if selfS = "-" then
       -- Ack iff no error and every returned message accepted by the handler's publisher
       let acceptedIds := (o.pubs.filter (fun p => p.ret = "ok")).flatMap (·.ids)
